@@ -271,7 +271,23 @@ def rule_hidden(r):
     r.check("self._calc_theory(pars, cutoff=self.cutoff)" in pf.unparse(dcall), DM, "DirectModel.__call__", "_calc_theory(pars, cutoff)", dcall.lineno)
 
 
+def rule_inactive(r):
+    """An inactive distribution means the same in every interface: (value, [value or 0 jitter], [1]).
+    direct_model answers itself, the SasView wrapper asks weights.get_weights - whose single-point case must agree."""
+    from .c02 import rule_centre
+    rule_centre(r)
+    dm = pf.lib("direct_model")
+    pw = dm.func("_pop_par_weights")
+    r.check(pf.contains_text(pw, "pd = ([value if relative else 0.0], [1.0])"), DM, "_pop_par_weights",
+            "inactive: [value if relative else 0.0], [1.0]", pw.lineno, "the sibling of Dispersion.get_weights' degenerate branch")
+    sv = pf.lib("sasview_model")
+    gw = sv.func("SasviewModel._get_weights")
+    r.check(pf.contains_text(gw, "return (value, [value], [1.0])"), SV, "SasviewModel._get_weights",
+            "non-dispersible parameter: value, [value], [1.0]", gw.lineno)
+
+
 RULES = [
+    ("R-C10-inactive", 9, "inactive distributions agree across interfaces", rule_inactive),
     ("R-C10-unused", 14, "unknown-name refusal post-dominates consumption in three interfaces", rule_unused),
     ("R-C10-suffix", 10, "dispersity suffix/default tables agree", rule_suffix),
     ("R-C10-mask", 11, "data selection index: q range, mask polarity, NaN", rule_mask),
